@@ -396,7 +396,7 @@ func (p *untypedParamBinder) setFieldValue(target reflect.Value, defaultValue in
 			}
 			return nil
 		}
-		f, err := strconv.ParseFloat(data, 64)
+		f, err := strconv.ParseFloat(data, target.Type().Bits())
 		if err != nil {
 			return errors.InvalidType(p.Name, p.parameter.In, tpe, data)
 		}
